@@ -40,6 +40,9 @@ type job struct {
 	doubleCrash bool
 	// svc: only the crash points around the last operation
 	lastOnly bool
+	// svc: event time pattern and name class (node: in cfg)
+	zig   bool
+	names int
 }
 
 // curJobs: lineage -> description of the job in progress (for harness error messages)
@@ -111,7 +114,7 @@ func opHistories(maxLen int, ids []string, levels []int) [][]SOp {
 }
 
 func histKey(c Cfg, h []Pt) string {
-	s := fmt.Sprintf("%v%v%v", c.Anon, c.Named, c.SCO)
+	s := fmt.Sprintf("%v%v%v%v%d", c.Anon, c.Named, c.SCO, c.Zig, c.Names)
 	for _, p := range h {
 		s += fmt.Sprintf(",%s%d", p.ID, p.Lvl)
 	}
@@ -147,10 +150,11 @@ func doJob(j job, lineage int64) result {
 		}
 		r.cleanup()
 	case "svc":
-		for i, tr := range doSvc(j.ops, lineage, j.lastOnly) {
-			res.resets = append(res.resets, rt.M{"kind": "svc", "hasAnon": true, "hasNamed": true, "sco": false, "hist": opsFields(j.ops)})
+		for i, tr := range doSvc(j.ops, j.lastOnly, j.names, j.zig) {
+			res.resets = append(res.resets, rt.M{"kind": "svc", "hasAnon": true, "hasNamed": true, "sco": false, "hist": opsFields(j.ops),
+				"times": timesLabel(j.zig), "names": j.names, "lastOnly": j.lastOnly})
 			res.traces = append(res.traces, tr)
-			res.keys = append(res.keys, fmt.Sprintf("svc%v@%d", j.ops, i))
+			res.keys = append(res.keys, fmt.Sprintf("svc%v/%v/%d@%d", j.ops, j.zig, j.names, i))
 		}
 	}
 	return res
@@ -181,13 +185,14 @@ func Run(r *rt.Run) error {
 	// two showcase histories first (they become the evidence samples; both recur in the enumeration)
 	jobs = append(jobs,
 		job{kind: "node", cfg: Cfg{Anon: true, Named: true, SCO: true}, hist: []Pt{{"a", 2}, {"a", 2}}},
-		job{kind: "svc", ops: []SOp{{"collect", "named", "ab", 3}, {"collect", "named", "a", 0}, {"delete", "anon", "", 0}}})
+		job{kind: "svc", ops: []SOp{{"collect", "named", "ab", 2}, {"collect", "named", "ab", 3}, {"collect", "named", "a", 0}}, zig: true, names: 1})
 	addNode := func(hs [][]Pt, minLen int) {
 		for _, h := range hs {
 			if len(h) < minLen {
 				continue
 			}
 			for _, c := range cfgs {
+				c.Names = len(jobs) % len(nameClasses) // alert ID name class: rotates over the enumeration
 				both := c.Anon && c.Named
 				// the longest double-crash histories only where the two topics can disagree
 				// and the disagreement matters (stateChangesOnly)
@@ -201,6 +206,15 @@ func Run(r *rt.Run) error {
 	// equal from different levels)
 	addNode(histories(maxLen-1, ids, levels, 3), 1)
 	addNode(histories(maxLen, ids, []int{0, 2, 3}, 3), maxLen)
+	// out-of-order event times: every history up to length 2 again with times 1,0 (the second
+	// event of an ID is EARLIER than the first; what is recorded is the last event collected,
+	// whatever its time)
+	for _, h := range histories(2, ids, levels, 3) {
+		for _, c := range cfgs {
+			c.Zig, c.Names = true, len(jobs)%len(nameClasses)
+			jobs = append(jobs, job{kind: "node", cfg: c, hist: h})
+		}
+	}
 	nExh := len(jobs) - 2
 	// seeded random longer histories (a level changes with probability 1/2 so that
 	// stateChangesOnly sees both repeats and changes)
@@ -215,23 +229,40 @@ func Run(r *rt.Run) error {
 			}
 			h[k] = Pt{id, lv[id]}
 		}
-		jobs = append(jobs, job{kind: "node", cfg: cfgs[r.Rand.Intn(len(cfgs))], hist: h, taskRestarts: true})
+		c := cfgs[r.Rand.Intn(len(cfgs))]
+		c.Zig, c.Names = r.Rand.Intn(2) == 0, r.Rand.Intn(len(nameClasses))
+		jobs = append(jobs, job{kind: "node", cfg: c, hist: h, taskRestarts: true})
 	}
 	nSvc := 0
-	addSvc := func(hs [][]SOp, minLen int, lastOnlyLongest bool) {
+	// names < 0: the name class rotates over the enumeration
+	addSvc := func(hs [][]SOp, lastOnlyLen int, zig bool, names int) {
 		for _, ops := range hs {
-			if len(ops) >= minLen {
-				jobs = append(jobs, job{kind: "svc", ops: ops, lastOnly: lastOnlyLongest && len(ops) == 3})
-				nSvc++
+			nm := names
+			if nm < 0 {
+				nm = len(jobs) % len(nameClasses)
 			}
+			jobs = append(jobs, job{kind: "svc", ops: ops, lastOnly: lastOnlyLen > 0 && len(ops) >= lastOnlyLen, zig: zig, names: nm})
+			nSvc++
 		}
 	}
 	// operations over {OK, CRITICAL} up to length 3; quick crashes the length-3 histories only
 	// around their last operation (the earlier boundaries are those of their prefixes, with
-	// one operation less applied after the restart); thorough adds all four levels up to length 2
-	addSvc(opHistories(3, ids, []int{0, 3}), 1, !r.Thorough())
+	// one operation less applied after the restart)
+	lastOnly3, lastOnly2 := 3, 2
 	if r.Thorough() {
-		addSvc(opHistories(2, ids, []int{1, 2}), 1, false)
+		lastOnly3, lastOnly2 = 0, 0
+	}
+	addSvc(opHistories(3, ids, []int{0, 3}), lastOnly3, false, -1)
+	// out-of-order event times over all four levels (two different non-OK levels are needed
+	// to see a stale record) up to length 2
+	addSvc(opHistories(2, ids, levels), 0, true, -1)
+	// every name class on every history up to length 2
+	for nm := 1; nm < len(nameClasses); nm++ {
+		addSvc(opHistories(2, ids, []int{0, 3}), lastOnly2, false, nm)
+	}
+	if r.Thorough() {
+		addSvc(opHistories(2, ids, []int{1, 2}), 0, false, -1)
+		addSvc(opHistories(3, ids, []int{0, 3}), 3, true, -1)
 	}
 	for i := 0; i < nRandomSvc; i++ {
 		n := 5 + r.Rand.Intn(5)
@@ -247,7 +278,7 @@ func Run(r *rt.Run) error {
 				ops[k] = SOp{"collect", tp, ids[r.Rand.Intn(2)], r.Rand.Intn(4)}
 			}
 		}
-		jobs = append(jobs, job{kind: "svc", ops: ops})
+		jobs = append(jobs, job{kind: "svc", ops: ops, zig: r.Rand.Intn(2) == 0, names: r.Rand.Intn(len(nameClasses))})
 	}
 	// replay mode: only the history of a saved violation (kvh c08 ... replay=<segment.ndjson>)
 	for _, a := range r.Args {
@@ -365,7 +396,7 @@ func Run(r *rt.Run) error {
 	r.Extra["crash_restarts_node"] = restarts["crash"]
 	r.Extra["task_restarts_node"] = restarts["taskrestart"]
 	r.Extra["crash_restarts_svc"] = restarts["svc"]
-	r.Finish("node: every level history up to the length bound over 2 alert IDs (a, ab: one a proper prefix of the other) x 4 levels, the longest length of the tier over 3 levels, length 3 and more only with first ID a x {anonymous, named, both topics} x stateChangesOnly on/off on a real AlertNode task, restarted (fresh service + TaskMaster) on the storage as it stood before and after every topic-store commit and at every point boundary with the remaining points fed again, plus an in-process task restart after every point and (shorter histories) a second crash at every boundary of the second run; svc: every history of Collect/CloseTopic/DeleteTopic on two topics (S, S_high) x IDs a, ab up to the bound, without symmetry reduction, with a restart at every commit boundary (quick: for length 3 only around the last operation); thorough adds seeded random longer histories; non-trivial = at least one topic-store transaction was committed before the crash / task restart (the restart is not on a pristine store); distinct by (configuration, history, crash point)", nRandom == 0)
+	r.Finish("node: every level history up to the length bound over 2 alert IDs (a, ab: one a proper prefix of the other) x 4 levels, the longest length of the tier over 3 levels, length 3 and more only with first ID a x {anonymous, named, both topics} x stateChangesOnly on/off on a real AlertNode task, restarted (fresh service + TaskMaster) on the storage as it stood before and after every topic-store commit and at every point boundary with the remaining points fed again, plus the histories up to length 2 with out-of-order event times (1,0), alert ID names rotating over 6 name classes (plain, /, glob metacharacters, space+unicode, dots/blank, quotes/escapes), plus an in-process task restart after every point and (shorter histories) a second crash at every boundary of the second run; svc: every history of Collect/CloseTopic/DeleteTopic on two topics (S, S_high) x IDs a, ab up to the bound, without symmetry reduction, with a restart at every commit boundary (quick: for length 3 only around the last operation), topic and ID names from the 6 name classes (rotating; every class on every history up to length 2), and out-of-order event times on every history up to length 2 over 4 levels; thorough adds seeded random longer histories; non-trivial = at least one topic-store transaction was committed before the crash / task restart (the restart is not on a pristine store); distinct by (configuration, history, crash point)", nRandom == 0)
 	return nil
 }
 
@@ -395,19 +426,22 @@ func jobFromSegment(path string) (job, error) {
 		HasAnon  bool   `json:"hasAnon"`
 		HasNamed bool   `json:"hasNamed"`
 		SCO      bool   `json:"sco"`
+		Times    string `json:"times"`
+		Names    int    `json:"names"`
+		LastOnly bool   `json:"lastOnly"`
 		Hist     [][]any
 	}
 	if err := json.Unmarshal(sc.Bytes(), &reset); err != nil {
 		return job{}, fmt.Errorf("segment %s: %v", path, err)
 	}
 	if reset.Kind == "svc" {
-		j := job{kind: "svc"}
+		j := job{kind: "svc", zig: reset.Times == "zig", names: reset.Names, lastOnly: reset.LastOnly}
 		for _, o := range reset.Hist {
 			j.ops = append(j.ops, SOp{o[0].(string), o[1].(string), o[2].(string), int(o[3].(float64))})
 		}
 		return j, nil
 	}
-	j := job{kind: "node", cfg: Cfg{Anon: reset.HasAnon, Named: reset.HasNamed, SCO: reset.SCO}, taskRestarts: true}
+	j := job{kind: "node", cfg: Cfg{Anon: reset.HasAnon, Named: reset.HasNamed, SCO: reset.SCO, Zig: reset.Times == "zig", Names: reset.Names}, taskRestarts: true}
 	for _, p := range reset.Hist {
 		j.hist = append(j.hist, Pt{p[0].(string), int(p[1].(float64))})
 	}
